@@ -526,6 +526,12 @@ class CFG:
                 productions.append(
                     Production(new_variables_d_local[production.head],
                                body))
+            if cfg.start_symbol not in new_variables_d_local:
+                # A grammar without start symbol generates nothing
+                temp = Variable("#EMPTY" + SUBS_SUFFIX + str(idx))
+                new_variables_d_local[cfg.start_symbol] = temp
+                new_vars.add(temp)
+                idx += 1
             final_replacement[ter] = new_variables_d_local[cfg.start_symbol]
             terminals = terminals.union(cfg.terminals)
         for production in self._productions:
@@ -539,7 +545,7 @@ class CFG:
                     body.append(cfgobj)
             productions.append(Production(new_variables_d[production.head],
                                           body))
-        return CFG(new_vars, None, new_variables_d[self._start_symbol],
+        return CFG(new_vars, None, new_variables_d.get(self._start_symbol),
                    set(productions))
 
     def union(self, other: "CFG") -> "CFG":
